@@ -17,10 +17,6 @@
                                   (full strength since /repo 6df2c0f: a shadowed prefix is skipped);
                                   C09_prefix_iff: for a real namespace, Some(_) iff bound
     C09_fullname_string           full_name is the spelling of name_ref's prefix
-    C09_fullname_element_partial / _attribute_partial / _false_…   the reported prefix resolves back
-                                  to the name's namespace by the rule for its kind, outside the two
-                                  defects (no-namespace element under a default namespace; attribute
-                                  whose namespace is the default namespace)
     C09_node_name_ref             node_name_ref reports the node's own name with name_ref's prefix
     C09_inherited_sound           inherited_prefixes ⊆ bindings in scope at the parent
     C09_unresolved_recursive      unresolved_namespaces = a recursive function of the declarations inside the
@@ -39,18 +35,22 @@
                                   included, every prefix of a namespace) whose namespace is reported
                                   unresolved; each prefix once
     C09_inherited_iff             … = bindings of the parent's scope that some name of the subtree needs
-    C09_fullname_element_real     GUARD-FREE, element name in a real namespace: Ok(prefix) resolves back to the
-                                  expanded name; Ok(_) iff some prefix (default included) is bound to the
-                                  namespace; otherwise exactly MissingPrefix(ns)
-    C09_fullname_element_iff      elements, exact boundary: an Ok answer is wrong iff the name is in no namespace
-                                  and a default namespace is in scope
-    C09_fullname_attribute_iff    attributes, exact boundary: an Ok answer is wrong iff the name is in a real
-                                  namespace and the EMPTY prefix is reported; C09_fullname_attribute_guard_not_needed:
-                                  the guard of _attribute_partial is sufficient, not necessary (closed witness)
-    C09_prefix_first              WHICH prefix: for a real namespace, the prefix of the first pair that
-                                  namespaces_in_scope yields with that namespace
-    C09_fullname_attribute_boundary   input-level boundary of the attribute finding: misreported iff the first
-                                  pair namespaces_in_scope yields with the attribute's namespace is the default prefix
+    C09_prefix_first / C09_namespace_prefix_first   WHICH prefix: for a real namespace, the prefix of the
+                                  first pair namespaces_in_scope yields with that namespace (attribute
+                                  nodes: the first such pair with a NON-EMPTY prefix)
+  Qualified names, full strength since /repo 7303420 + 84c8828 (no guards, every tree, every node):
+    C09_nameref_attribute / C09_fullname_attribute   context = attribute node (any name): Ok(p) ⇒ p non-empty
+                                  for a real namespace and p reads back (attribute rule: unprefixed = no
+                                  namespace) as the name's namespace; Err ⇔ real namespace with no NON-EMPTY
+                                  prefix bound to it, and then MissingPrefix(ns)
+    C09_nameref_element / C09_fullname_element       context = element, its OWN name: Ok(p) ⇒ p reads back
+                                  (element rule: unprefixed = default namespace if any) as the name's
+                                  namespace; Err ⇔ (real namespace, no prefix at all bound) or (no namespace,
+                                  default namespace in scope), and then MissingPrefix(ns) / MissingPrefix("")
+    C09_nameref_other_name / C09_fullname_other_name context not an attribute node, name not its own element
+                                  name: exactly prefix_for_namespace (default prefix included); a
+                                  no-namespace name is never refused
+    C09_fullname                  the property as worded, for node_name_ref on every element / attribute node
 -/
 import XotModel.Lemmas.Scope
 import XotModel.Lemmas.ScopeStack
@@ -58,6 +58,7 @@ import XotModel.Lemmas.ScopeWalk
 import XotModel.Lemmas.ScopeSerialise
 import XotModel.Lemmas.ScopeUnres
 import XotModel.Lemmas.ScopeFirst
+import XotModel.Lemmas.ScopeName
 
 namespace XotModel.Props
 open XotModel
@@ -146,14 +147,7 @@ theorem C09_prefix_sound (t : Tree) (path : Path) (ns p : Nat)
   simp only [prefixForNamespace, Option.map_eq_some_iff] at h
   obtain ⟨chain, hc, h⟩ := h
   simp only [scopeSpec, hc]
-  unfold prefixForNamespaceChain at h
-  rw [pfnChain_eq] at h
-  cases hd : pfnDecls ns [] (allDecls chain) with
-  | cont s => simp [hd, pfnResult] at h
-  | ret r =>
-    simp only [hd, pfnResult] at h
-    subst h
-    exact scopeSpecChain_of_lookup (pfnDecls_sound ns _ _ _ hd).2 hns
+  exact (namespacePrefixChain_sound (by simpa [prefixForNamespaceChain] using h) hns).1
 
 /-- Completeness, at full strength: if some prefix is bound to `ns` in the node's scope,
     `prefix_for_namespace` returns a prefix, and (for a real namespace) one bound to `ns`. -/
@@ -167,10 +161,9 @@ theorem C09_prefix_complete (t : Tree) (path : Path) (ns : Nat)
   | none => simp [hc] at hq
   | some chain =>
     simp only [hc] at hq
-    obtain ⟨p, hp⟩ := pfnDecls_complete ns (allDecls chain) []
-      ⟨q, by simp, scopeSpecChain_some_lookup hq⟩
+    obtain ⟨p, hp⟩ := namespacePrefixChain_complete (ne := false) ⟨q, hq, rfl⟩
     have hres : prefixForNamespace t path ns = some (some p) := by
-      simp [prefixForNamespace, hc, prefixForNamespaceChain, pfnChain_eq, hp, pfnResult]
+      simp [prefixForNamespace, hc, prefixForNamespaceChain, hp]
     exact ⟨p, hres, fun hns => C09_prefix_sound t path ns p hres hns⟩
 
 /-- For a real namespace: `prefix_for_namespace` answers `Some(_)` exactly when the namespace is
@@ -180,82 +173,7 @@ theorem C09_prefix_iff (t : Tree) (path : Path) (ns : Nat) (hns : ns ≠ Env.noN
   ⟨fun ⟨p, hp⟩ => ⟨p, C09_prefix_sound t path ns p hp hns⟩,
    fun h => let ⟨p, hp, _⟩ := C09_prefix_complete t path ns h; ⟨p, hp⟩⟩
 
-/-! ### Qualified names -/
-
-/-- `full_name` spells the prefix `name_ref` reports (`""` is prefix 0 in every `Xot`). -/
-theorem C09_fullname_string (env : Env) (chain : List Tree) (name : Nat)
-    (henv : env.prefixStr Env.emptyPrefix = []) :
-    fullNameChain env chain name =
-      match nameRefChain env chain name with
-      | .ok p =>
-        .ok (if (env.prefixStr p).isEmpty then env.localName name
-             else env.prefixStr p ++ [':'] ++ env.localName name)
-      | .error e => .error e := by
-  unfold fullNameChain nameRefChain
-  by_cases hns : env.nsOfName name = Env.noNamespace
-  · simp [hns, henv]
-  · have h1 : (env.nsOfName name == Env.noNamespace) = false := by simpa using hns
-    have h2 : (env.nsOfName name != Env.noNamespace) = true := by simp [bne, h1]
-    simp only [h1, h2, Bool.false_eq_true, ↓reduceIte]
-    cases prefixForNamespaceChain chain (env.nsOfName name) with
-    | none => rfl
-    | some p => cases h : (env.prefixStr p).isEmpty <;> simp [h]
-
-/-- The statement at full strength: the reported prefix, resolved by the rule for the kind of
-    name, gives back the name's namespace. -/
-def C09_fullname_statement : Prop :=
-  ∀ (env : Env) (chain : List Tree) (isAttribute : Bool) (name p : Nat),
-    nameRefChain env chain name = .ok p →
-    resolveQName chain isAttribute p = some (env.nsOfName name)
-
-/-- Element names: correct unless the name is in no namespace while a default namespace is in
-    scope (then no prefix could say so; the name is reported unprefixed all the same). -/
-theorem C09_fullname_element_partial (env : Env) (chain : List Tree) (name p : Nat)
-    (h : nameRefChain env chain name = .ok p)
-    (hg : env.nsOfName name = Env.noNamespace → scopeSpecChain chain Env.emptyPrefix = none) :
-    resolveQName chain false p = some (env.nsOfName name) := by
-  rcases nameRefChain_ok h with ⟨h0, rfl⟩ | ⟨_, hs⟩
-  · simp [resolveQName, hg h0, h0]
-  · unfold resolveQName
-    by_cases hp : p = Env.emptyPrefix
-    · subst hp; simp [hs]
-    · have : (p == Env.emptyPrefix) = false := by simpa using hp
-      simp [this, hs]
-
-/-- Attribute names: correct unless the attribute's namespace is the default namespace in scope
-    at the point where the walk meets it first. A sufficient guard: it is not the default
-    namespace at all. -/
-theorem C09_fullname_attribute_partial (env : Env) (chain : List Tree) (name p : Nat)
-    (h : nameRefChain env chain name = .ok p)
-    (hg : scopeSpecChain chain Env.emptyPrefix ≠ some (env.nsOfName name)) :
-    resolveQName chain true p = some (env.nsOfName name) := by
-  rcases nameRefChain_ok h with ⟨h0, rfl⟩ | ⟨_, hs⟩
-  · simp [resolveQName, h0]
-  · unfold resolveQName
-    by_cases hp : p = Env.emptyPrefix
-    · subst hp; exact absurd hs hg
-    · have : (p == Env.emptyPrefix) = false := by simpa using hp
-      simp [this, hs]
-
-/-- `<a xmlns="A" A:x="…"/>`: the attribute `{A}x` is reported with the empty prefix, which for an
-    attribute means no namespace. -/
-theorem C09_fullname_false_attribute : ¬ C09_fullname_statement := by
-  intro h
-  have := h { namespaces := [], prefixes := [[]], names := [(['x'], 2)] }
-    [.node (.attribute 0 []) [], .node (.element 0) [.node (.namespace 0 2) [], .node (.attribute 0 []) []]]
-    true 0 0 (by rfl)
-  revert this
-  decide
-
-/-- `<a xmlns="A"><b/></a>` with `b` in no namespace: reported unprefixed, which under the default
-    namespace means `{A}b`. -/
-theorem C09_fullname_false_element : ¬ C09_fullname_statement := by
-  intro h
-  have := h { namespaces := [], prefixes := [[]], names := [(['b'], 0)] }
-    [.node (.element 0) [], .node (.element 5) [.node (.namespace 0 2) [], .node (.element 0) []]]
-    false 0 0 (by rfl)
-  revert this
-  decide
+/-! ### `node_name_ref` -/
 
 /-- `node_name_ref(node)` reports the node's own name (`node_name`) with `name_ref`'s prefix. -/
 theorem C09_node_name_ref (env : Env) (t : Tree) (path : Path) (chain : List Tree) (sub : Tree)
@@ -438,95 +356,182 @@ theorem C09_inherited_iff (env : Env) (t : Tree) (path : Path) (sub : Tree) (l :
   simp only [unresolvedNamespaces, hs, Option.map_some, Option.some.injEq, exists_eq_left']
   rw [C09_unresolved env t path sub _ hs hu (by simp [unresolvedNamespaces, hs]) ns]
 
-/-! ### Qualified names: the exact boundaries -/
+/-! ### Qualified names (`full_name`, `name_ref`, `node_name_ref`; `/repo` 7303420, 84c8828) -/
 
-/-- The common case, no guard: an ELEMENT name in a real namespace.  `name_ref` / `full_name` /
-    `node_name_ref` answer `Ok(prefix)` exactly when some prefix — the default prefix included — is
-    bound to the namespace in the node's scope, the reported prefix then resolves (by the rule for
-    element names) to the name's namespace, and otherwise the answer is `MissingPrefix(ns)`. -/
-theorem C09_fullname_element_real (env : Env) (chain : List Tree) (name : Nat)
-    (hns : env.nsOfName name ≠ Env.noNamespace) :
+/-- `full_name` spells the prefix `name_ref` reports: `prefix:local`, or `local` for the empty
+    prefix string; the same error otherwise. -/
+theorem C09_fullname_string (env : Env) (chain : List Tree) (name : Nat) :
+    fullNameChain env chain name =
+      match nameRefChain env chain name with
+      | .ok p => .ok (qnameSpelling env p name)
+      | .error e => .error e := fullNameChain_eq env chain name
+
+/-- `name_ref(name, a)` where the context `a` is an ATTRIBUTE NODE (`chain` = `a` and its ancestors),
+    for ANY name, in particular `a`'s own.  `Ok(p)`: `p` is non-empty for a name in a real namespace
+    and reads back — by the attribute rule, unprefixed = no namespace — as the name's namespace.
+    `Err(e)` exactly when the name is in a real namespace to which no NON-EMPTY prefix is bound in
+    `a`'s scope, and then `e = MissingPrefix(ns)`.  So: `Ok` iff the name can be written. -/
+theorem C09_nameref_attribute (env : Env) (chain : List Tree) (a : Tree) (n : Nat) (v : Str)
+    (name : Nat) (hh : chain.head? = some a) (hv : a.value = .attribute n v) :
+    (∀ p, nameRefChain env chain name = .ok p →
+      (env.nsOfName name ≠ Env.noNamespace → p ≠ Env.emptyPrefix) ∧
+      resolveQName chain true p = some (env.nsOfName name)) ∧
+    (∀ e, nameRefChain env chain name = .error e ↔
+      e = .missingPrefix (env.nsOfName name) ∧ env.nsOfName name ≠ Env.noNamespace ∧
+      ∀ q, q ≠ Env.emptyPrefix → scopeSpecChain chain q ≠ some (env.nsOfName name)) ∧
+    ((∃ p, nameRefChain env chain name = .ok p) ↔
+      env.nsOfName name = Env.noNamespace ∨
+      ∃ q, q ≠ Env.emptyPrefix ∧ scopeSpecChain chain q = some (env.nsOfName name)) :=
+  nameRefChain_attribute env chain a n v name hh hv
+
+/-- `name_ref(name, e)` where the context `e` is an ELEMENT and `name` is its OWN name.  `Ok(p)`: `p`
+    (possibly empty) reads back — by the element rule, unprefixed = the default namespace if any —
+    as the name's namespace.  `Err(e)` exactly when (real namespace, NO prefix at all bound to it)
+    or (no namespace, a default namespace in scope: nothing can say "no namespace" there), and then
+    `e = MissingPrefix(ns)` (`MissingPrefix("")` in the second case). -/
+theorem C09_nameref_element (env : Env) (chain : List Tree) (e : Tree) (name : Nat)
+    (hh : chain.head? = some e) (hv : e.value = .element name) :
     (∀ p, nameRefChain env chain name = .ok p →
       resolveQName chain false p = some (env.nsOfName name)) ∧
-    ((∃ p, nameRefChain env chain name = .ok p) ↔
-      ∃ q, scopeSpecChain chain q = some (env.nsOfName name)) ∧
-    ((∀ q, scopeSpecChain chain q ≠ some (env.nsOfName name)) →
-      nameRefChain env chain name = .error (.missingPrefix (env.nsOfName name))) := by
-  have hb : (env.nsOfName name != Env.noNamespace) = true := by simpa [bne] using hns
-  have hsound : ∀ p, nameRefChain env chain name = .ok p →
-      scopeSpecChain chain p = some (env.nsOfName name) := by
-    intro p h
-    rcases nameRefChain_ok h with ⟨h0, _⟩ | ⟨_, hs⟩
-    · exact absurd h0 hns
-    · exact hs
-  have hcomplete : (∃ q, scopeSpecChain chain q = some (env.nsOfName name)) →
-      ∃ p, nameRefChain env chain name = .ok p := by
-    rintro ⟨q, hq⟩
-    obtain ⟨p, hp⟩ := pfnDecls_complete (env.nsOfName name) (allDecls chain) []
-      ⟨q, by simp, scopeSpecChain_some_lookup hq⟩
-    exact ⟨p, by simp [nameRefChain, hb, prefixForNamespaceChain, pfnChain_eq, hp, pfnResult]⟩
-  refine ⟨fun p h => C09_fullname_element_partial env chain name p h (fun h0 => absurd h0 hns),
-    ⟨fun ⟨p, h⟩ => ⟨p, hsound p h⟩, hcomplete⟩, fun hall => ?_⟩
-  unfold nameRefChain
-  simp only [hb, ↓reduceIte]
-  cases hp : prefixForNamespaceChain chain (env.nsOfName name) with
-  | none => rfl
-  | some p =>
-    exfalso
-    exact hall p (hsound p (by simp [nameRefChain, hb, hp]))
+    (∀ err, nameRefChain env chain name = .error err ↔
+      err = .missingPrefix (env.nsOfName name) ∧
+      ((env.nsOfName name ≠ Env.noNamespace ∧
+          ∀ q, scopeSpecChain chain q ≠ some (env.nsOfName name)) ∨
+       (env.nsOfName name = Env.noNamespace ∧
+          ∃ d, scopeSpecChain chain Env.emptyPrefix = some d))) :=
+  nameRefChain_element env chain e name hh hv
 
-/-- Elements, exact boundary of the open finding: an `Ok(prefix)` resolves back to the name's
-    namespace iff it is NOT the case that the name is in no namespace while a default namespace
-    is in scope. -/
-theorem C09_fullname_element_iff (env : Env) (chain : List Tree) (name p : Nat)
-    (h : nameRefChain env chain name = .ok p) :
-    resolveQName chain false p = some (env.nsOfName name) ↔
-      ¬ (env.nsOfName name = Env.noNamespace ∧ ∃ d, scopeSpecChain chain Env.emptyPrefix = some d) := by
-  constructor
-  · rintro hr ⟨h0, d, hd⟩
-    rcases nameRefChain_ok h with ⟨_, rfl⟩ | ⟨hne, _⟩
-    · simp only [resolveQName, beq_self_eq_true, ↓reduceIte, Bool.false_eq_true, hd, Option.getD_some,
-        h0, Option.some.injEq] at hr
-      exact scopeSpecChain_empty_ne chain (hr ▸ hd)
-    · exact hne h0
-  · intro hg
-    apply C09_fullname_element_partial env chain name p h
-    intro h0
-    cases hd : scopeSpecChain chain Env.emptyPrefix with
-    | none => rfl
-    | some d => exact absurd ⟨h0, d, hd⟩ hg
+/-- What the code does when the context `c` is NOT an attribute node (an element, but also a
+    document, text, comment, processing instruction or namespace node) and `name` is NOT its own
+    element name — e.g. one of an element's attribute names queried with the element as context.
+    A name in no namespace gets the empty prefix, whatever is in scope (no refusal under a default
+    namespace).  A name in a real namespace gets exactly `prefix_for_namespace(c, ns)`: the first
+    unshadowed prefix bound to `ns`, the DEFAULT PREFIX INCLUDED (element rule, also for a name
+    that is an attribute name), and `MissingPrefix(ns)` exactly when no prefix is bound to `ns`. -/
+theorem C09_nameref_other_name (env : Env) (chain : List Tree) (c : Tree) (name : Nat)
+    (hh : chain.head? = some c) (hna : valueIsAttribute c.value = false)
+    (hne : c.value ≠ .element name) :
+    (env.nsOfName name = Env.noNamespace → nameRefChain env chain name = .ok Env.emptyPrefix) ∧
+    (env.nsOfName name ≠ Env.noNamespace →
+      (nameRefChain env chain name =
+        match prefixForNamespaceChain chain (env.nsOfName name) with
+        | some p => .ok p
+        | none => .error (.missingPrefix (env.nsOfName name))) ∧
+      (∀ p, nameRefChain env chain name = .ok p →
+        resolveQName chain false p = some (env.nsOfName name)) ∧
+      (∀ e, nameRefChain env chain name = .error e ↔
+        e = .missingPrefix (env.nsOfName name) ∧
+        ∀ q, scopeSpecChain chain q ≠ some (env.nsOfName name))) :=
+  nameRefChain_other_name env chain c name hh hna hne
 
-/-- Attributes, exact boundary of the open finding: an `Ok(prefix)` resolves back to the name's
-    namespace iff it is NOT the case that the name is in a real namespace and the EMPTY prefix is
-    reported (which happens when `prefix_for_namespace` meets the default declaration of that
-    namespace before any other unshadowed prefix bound to it). -/
-theorem C09_fullname_attribute_iff (env : Env) (chain : List Tree) (name p : Nat)
-    (h : nameRefChain env chain name = .ok p) :
-    resolveQName chain true p = some (env.nsOfName name) ↔
-      ¬ (env.nsOfName name ≠ Env.noNamespace ∧ p = Env.emptyPrefix) := by
-  constructor
-  · rintro hr ⟨hne, rfl⟩
-    simp only [resolveQName, beq_self_eq_true, ↓reduceIte, Option.some.injEq] at hr
-    exact hne hr.symm
-  · intro hg
-    rcases nameRefChain_ok h with ⟨h0, rfl⟩ | ⟨hne, hs⟩
-    · simp [resolveQName, h0]
-    · have hp : p ≠ Env.emptyPrefix := fun hp => hg ⟨hne, hp⟩
-      have : (p == Env.emptyPrefix) = false := by simpa using hp
-      simp [resolveQName, this, hs]
+/-! #### The same for `full_name`, for every tree and every node -/
 
-/-- The guard of `C09_fullname_attribute_partial` (the namespace is not the default namespace in
-    scope) is sufficient but NOT necessary: in `<a xmlns:p="A" xmlns="A" A:x=""/>` the walk meets
-    `p` first and the attribute is reported correctly as `p:x` although `A` is the default
-    namespace.  The exact boundary is `C09_fullname_attribute_iff`. -/
-theorem C09_fullname_attribute_guard_not_needed :
-    ∃ (env : Env) (chain : List Tree) (name p : Nat), nameRefChain env chain name = .ok p ∧
-      scopeSpecChain chain Env.emptyPrefix = some (env.nsOfName name) ∧
-      resolveQName chain true p = some (env.nsOfName name) :=
-  ⟨{ namespaces := [], prefixes := [[]], names := [(['x'], 2)] },
-    [.node (.attribute 0 []) [],
-     .node (.element 0) [.node (.namespace 2 2) [], .node (.namespace 0 2) [], .node (.attribute 0 []) []]],
-    0, 2, by rfl, by decide, by decide⟩
+/-- `full_name(a, name)` for an ATTRIBUTE NODE `a` of any tree (any `name`; `name = n` is `a`'s own
+    name).  `Ok(s)`: `s` spells a prefix `p` (the one `name_ref` reports) that is non-empty if the
+    name is in a real namespace and that resolves in `a`'s scope, by the attribute rule, to the
+    name's namespace.  `Err(e)` exactly when the name is in a real namespace with no non-empty
+    prefix bound to it in `a`'s scope (`scopeSpec`), and then `e = MissingPrefix(ns)`. -/
+theorem C09_fullname_attribute (env : Env) (t : Tree) (path : Path) (chain : List Tree) (a : Tree)
+    (n : Nat) (v : Str) (name : Nat) (hc : t.ancestorsOrSelf path = some chain)
+    (ha : t.at? path = some a) (hv : a.value = .attribute n v) :
+    (∀ s, fullName env t path name = some (.ok s) →
+      ∃ p, nameRef env t path name = some (.ok p) ∧ s = qnameSpelling env p name ∧
+        (env.nsOfName name ≠ Env.noNamespace → p ≠ Env.emptyPrefix) ∧
+        resolveQName chain true p = some (env.nsOfName name)) ∧
+    (∀ e, fullName env t path name = some (.error e) ↔
+      e = .missingPrefix (env.nsOfName name) ∧ env.nsOfName name ≠ Env.noNamespace ∧
+      ∀ q, q ≠ Env.emptyPrefix → scopeSpec t path q ≠ some (env.nsOfName name)) := by
+  have hh : chain.head? = some a := (ancestorsOrSelf_head path t chain hc).trans ha
+  obtain ⟨hok, herr, _⟩ := C09_nameref_attribute env chain a n v name hh hv
+  have hspec : ∀ q, scopeSpec t path q = scopeSpecChain chain q := by intro q; simp [scopeSpec, hc]
+  simp only [fullName, nameRef, hc, Option.map_some, Option.some.injEq, hspec]
+  refine ⟨fun s hs => ?_, fun e => ?_⟩
+  · obtain ⟨p, hp, rfl⟩ := (fullNameChain_ok_iff env chain name s).1 hs
+    exact ⟨p, hp, rfl, hok p hp⟩
+  · rw [fullNameChain_error_iff]; exact herr e
+
+/-- `full_name(e, name)` for an ELEMENT `e` of any tree and its OWN name.  `Ok(s)`: `s` spells a
+    prefix `p` (possibly empty) that resolves in `e`'s scope, by the element rule, to the name's
+    namespace.  `Err(err)` exactly when (real namespace, no prefix at all bound to it) or
+    (no namespace, a default namespace in scope), and then `err = MissingPrefix(ns)`. -/
+theorem C09_fullname_element (env : Env) (t : Tree) (path : Path) (chain : List Tree) (e : Tree)
+    (name : Nat) (hc : t.ancestorsOrSelf path = some chain)
+    (he : t.at? path = some e) (hv : e.value = .element name) :
+    (∀ s, fullName env t path name = some (.ok s) →
+      ∃ p, nameRef env t path name = some (.ok p) ∧ s = qnameSpelling env p name ∧
+        resolveQName chain false p = some (env.nsOfName name)) ∧
+    (∀ err, fullName env t path name = some (.error err) ↔
+      err = .missingPrefix (env.nsOfName name) ∧
+      ((env.nsOfName name ≠ Env.noNamespace ∧
+          ∀ q, scopeSpec t path q ≠ some (env.nsOfName name)) ∨
+       (env.nsOfName name = Env.noNamespace ∧
+          ∃ d, scopeSpec t path Env.emptyPrefix = some d))) := by
+  have hh : chain.head? = some e := (ancestorsOrSelf_head path t chain hc).trans he
+  obtain ⟨hok, herr⟩ := C09_nameref_element env chain e name hh hv
+  have hspec : ∀ q, scopeSpec t path q = scopeSpecChain chain q := by intro q; simp [scopeSpec, hc]
+  simp only [fullName, nameRef, hc, Option.map_some, Option.some.injEq, hspec]
+  refine ⟨fun s hs => ?_, fun err => ?_⟩
+  · obtain ⟨p, hp, rfl⟩ := (fullNameChain_ok_iff env chain name s).1 hs
+    exact ⟨p, hp, rfl, hok p hp⟩
+  · rw [fullNameChain_error_iff]; exact herr err
+
+/-- `full_name(c, name)` where `c` is not an attribute node and `name` is not `c`'s own element
+    name: exactly the spelling of `prefix_for_namespace(c, ns)` (default prefix included) for a
+    name in a real namespace, `MissingPrefix(ns)` iff that is `None`; the bare local name for a
+    name in no namespace, whatever default namespace is in scope. -/
+theorem C09_fullname_other_name (env : Env) (t : Tree) (path : Path) (chain : List Tree) (c : Tree)
+    (name : Nat) (hc : t.ancestorsOrSelf path = some chain) (hs : t.at? path = some c)
+    (hna : valueIsAttribute c.value = false) (hne : c.value ≠ .element name) :
+    (env.nsOfName name = Env.noNamespace →
+      fullName env t path name = some (.ok (qnameSpelling env Env.emptyPrefix name))) ∧
+    (env.nsOfName name ≠ Env.noNamespace →
+      ∃ r, prefixForNamespace t path (env.nsOfName name) = some r ∧
+        fullName env t path name = some (match r with
+          | some p => .ok (qnameSpelling env p name)
+          | none => .error (.missingPrefix (env.nsOfName name)))) := by
+  have hh : chain.head? = some c := (ancestorsOrSelf_head path t chain hc).trans hs
+  obtain ⟨h0, h1⟩ := C09_nameref_other_name env chain c name hh hna hne
+  simp only [fullName, prefixForNamespace, hc, Option.map_some, Option.some.injEq, exists_eq_left']
+  refine ⟨fun h => ?_, fun h => ?_⟩
+  · rw [fullNameChain_eq, h0 h]
+  · rw [fullNameChain_eq, (h1 h).1]
+    cases prefixForNamespaceChain chain (env.nsOfName name) <;> rfl
+
+/-- The property as worded: the qualified name `node_name_ref` reports for an element or attribute
+    node uses a prefix which, resolved in that node's scope by the XML-Namespaces rule for its
+    kind, gives back the node's expanded name.  Full strength: every tree, every such node. -/
+theorem C09_fullname (env : Env) (t : Tree) (path : Path) (chain : List Tree) (sub : Tree)
+    (name p : Nat) (hc : t.ancestorsOrSelf path = some chain) (hs : t.at? path = some sub)
+    (hk : sub.value.isElement = true ∨ valueIsAttribute sub.value = true)
+    (h : nodeNameRef env t path = some (.ok (some (name, p)))) :
+    nodeName sub.value = some name ∧
+      resolveQName chain (valueIsAttribute sub.value) p = some (env.nsOfName name) := by
+  obtain ⟨hn, hr⟩ := C09_node_name_ref env t path chain sub name p hc hs h
+  have hh : chain.head? = some sub := (ancestorsOrSelf_head path t chain hc).trans hs
+  refine ⟨hn, ?_⟩
+  rcases hk with hk | hk
+  · obtain ⟨m, hv⟩ : ∃ m, sub.value = .element m := by
+      cases hv : sub.value <;> simp_all [Value.isElement]
+    simp only [hv, nodeName, Option.some.injEq] at hn
+    subst hn
+    rw [hv]
+    exact (C09_nameref_element env chain sub m hh hv).1 p hr
+  · obtain ⟨m, v, hv⟩ : ∃ m v, sub.value = .attribute m v := by
+      cases hv : sub.value <;> simp_all [valueIsAttribute]
+    rw [hv]
+    exact ((C09_nameref_attribute env chain sub m v name hh hv).1 p hr).2
+
+/-- WHICH prefix `namespace_prefix(node, ns, non_empty)` reports for a real namespace: the prefix
+    of the first pair `namespaces_in_scope(node)` yields with that namespace — with `non_empty`
+    (attribute nodes) the first such pair with a non-empty prefix. -/
+theorem C09_namespace_prefix_first (t : Tree) (path : Path) (ns : Nat) (nonEmpty : Bool)
+    (hns : ns ≠ Env.noNamespace) (l : List (Nat × Nat)) (h : namespacesInScope t path = some l) :
+    namespacePrefix t path ns nonEmpty =
+      some ((l.find? (fun kv => kv.2 == ns && !(nonEmpty && kv.1 == Env.emptyPrefix))).map Prod.fst) := by
+  simp only [namespacesInScope, Option.map_eq_some_iff] at h
+  obtain ⟨chain, hc, rfl⟩ := h
+  simp only [namespacePrefix, hc, Option.map_some, namespacePrefixChain_eq_find chain ns nonEmpty hns]
+  rfl
 
 /-- WHICH prefix `prefix_for_namespace` reports for a real namespace: the prefix of the first pair
     `namespaces_in_scope(node)` yields with that namespace (nearest element first, declaration
@@ -537,33 +542,6 @@ theorem C09_prefix_first (t : Tree) (path : Path) (ns : Nat) (hns : ns ≠ Env.n
   simp only [namespacesInScope, Option.map_eq_some_iff] at h
   obtain ⟨chain, hc, rfl⟩ := h
   simp [prefixForNamespace, hc, prefixForNamespaceChain_eq_find chain ns hns]
-
-/-- The attribute finding at input level: an attribute name in a real namespace gets an `Ok`
-    answer that does not resolve back iff the FIRST pair `namespaces_in_scope` yields with its
-    namespace is the default prefix. -/
-theorem C09_fullname_attribute_boundary (env : Env) (chain : List Tree) (name : Nat)
-    (hns : env.nsOfName name ≠ Env.noNamespace) :
-    (∃ p, nameRefChain env chain name = .ok p ∧
-        resolveQName chain true p ≠ some (env.nsOfName name)) ↔
-      ((namespacesInScopeChain chain).find? (fun kv => kv.2 == env.nsOfName name)).map Prod.fst =
-        some Env.emptyPrefix := by
-  rw [← prefixForNamespaceChain_eq_find chain _ hns]
-  have hb : (env.nsOfName name != Env.noNamespace) = true := by simpa [bne] using hns
-  constructor
-  · rintro ⟨p, hp, hr⟩
-    have hp0 : p = Env.emptyPrefix := by
-      by_cases hp0 : p = Env.emptyPrefix
-      · exact hp0
-      · exact absurd ((C09_fullname_attribute_iff env chain name p hp).2 (fun h => hp0 h.2)) hr
-    subst hp0
-    simp only [nameRefChain, hb, ↓reduceIte] at hp
-    cases hq : prefixForNamespaceChain chain (env.nsOfName name) with
-    | none => simp [hq] at hp
-    | some q => simp only [hq, Except.ok.injEq] at hp; rw [hp]
-  · intro h
-    refine ⟨Env.emptyPrefix, by simp [nameRefChain, hb, h], ?_⟩
-    simp only [resolveQName, beq_self_eq_true, ↓reduceIte, ne_eq, Option.some.injEq]
-    exact fun h0 => hns h0.symm
 
 /-! ### Non-vacuity -/
 
@@ -604,5 +582,58 @@ example : inheritedPrefixes c09UnresEnv (.node (.element 5) [.node (.namespace 2
 /-- `<a xmlns:p="A"><A:b/></a>`: element `b` in `A`, bound only by prefix: `Ok(p)`; unbound `B`: error. -/
 example : nameRefChain c09UnresEnv [.node (.element 0) [], c09UnresTree] 0 = .ok 2 := by rfl
 example : nameRefChain c09UnresEnv [.node (.element 1) [], c09UnresTree] 1 = .error (.missingPrefix 3) := by rfl
+
+/-! #### Qualified names: the two former findings, closed.  Names: 0 = `{A}x`, 1 = `b`, 2 = `c` (no
+    namespace), 3 = `{A}a`; namespace `A` = 2; prefixes `""` = 0, `xml` = 1, `p` = 2. -/
+def c09QnEnv : Env :=
+  { namespaces := [[], ['X'], ['A']], prefixes := [[], ['x', 'm', 'l'], ['p']],
+    names := [(['x'], 2), (['b'], 0), (['c'], 0), (['a'], 2)] }
+def c09Attr : Tree := .node (.attribute 0 []) []
+def c09El (name : Nat) (decls : List (Nat × Nat)) (kids : List Tree) : Tree :=
+  .node (.element name) (decls.map (fun d => .node (.namespace d.1 d.2) []) ++ kids)
+
+/-- `<a xmlns="A" A:x=""/>` at the attribute (the former witness): `A` is bound only as default
+    namespace, which an attribute cannot use: `MissingPrefix(A)` (was: `Ok("")`, i.e. `x`). -/
+example : nameRefChain c09QnEnv [c09Attr, c09El 3 [(0, 2)] [c09Attr]] 0 = .error (.missingPrefix 2) := by rfl
+example : fullName c09QnEnv (c09El 3 [(0, 2)] [c09Attr]) [1] 0 = some (.error (.missingPrefix 2)) := by rfl
+/-- Default AND prefix, both declaration orders, and across ancestor levels: the prefix `p`. -/
+example : nameRefChain c09QnEnv [c09Attr, c09El 3 [(0, 2), (2, 2)] [c09Attr]] 0 = .ok 2 := by rfl
+example : nameRefChain c09QnEnv [c09Attr, c09El 3 [(2, 2), (0, 2)] [c09Attr]] 0 = .ok 2 := by rfl
+example : nameRefChain c09QnEnv [c09Attr, c09El 3 [(0, 2)] [c09Attr], c09El 1 [(2, 2)] []] 0 = .ok 2 := by rfl
+example : nameRefChain c09QnEnv [c09Attr, c09El 3 [(2, 2)] [c09Attr], c09El 3 [(0, 2)] []] 0 = .ok 2 := by rfl
+example : fullName c09QnEnv (c09El 3 [(0, 2), (2, 2)] [c09Attr]) [2] 0 = some (.ok ['p', ':', 'x']) := by rfl
+example : resolveQName [c09Attr, c09El 3 [(0, 2), (2, 2)] [c09Attr]] true 2 = some 2 := by decide
+/-- a no-namespace name at an attribute node: unprefixed. -/
+example : nameRefChain c09QnEnv [c09Attr, c09El 3 [(0, 2)] [c09Attr]] 2 = .ok 0 := by rfl
+
+/-- `<a xmlns="A"><b/></a>` at `b` (in no namespace; the former witness), default namespace at
+    distance 0, 1, 2: `MissingPrefix("")` (was: `Ok("")`, which there means `{A}b`). -/
+example : nameRefChain c09QnEnv [c09El 1 [(0, 2)] []] 1 = .error (.missingPrefix 0) := by rfl
+example : nameRefChain c09QnEnv [c09El 1 [] [], c09El 3 [(0, 2)] []] 1 = .error (.missingPrefix 0) := by rfl
+example : nameRefChain c09QnEnv [c09El 1 [] [], c09El 3 [] [], c09El 3 [(0, 2)] []] 1 =
+    .error (.missingPrefix 0) := by rfl
+example : fullName c09QnEnv (c09El 3 [(0, 2)] [c09El 1 [] []]) [1] 1 = some (.error (.missingPrefix 0)) := by rfl
+/-- … with `xmlns=""` on the element or in between: unprefixed, and that reads back as no namespace. -/
+example : nameRefChain c09QnEnv [c09El 1 [(0, 0)] [], c09El 3 [(0, 2)] []] 1 = .ok 0 := by rfl
+example : nameRefChain c09QnEnv [c09El 1 [] [], c09El 2 [(0, 0)] [], c09El 3 [(0, 2)] []] 1 = .ok 0 := by rfl
+example : resolveQName [c09El 1 [] [], c09El 2 [(0, 0)] [], c09El 3 [(0, 2)] []] false 0 = some 0 := by decide
+/-- an element in `A` under `xmlns="A"`: the empty prefix, read back by the element rule as `A`;
+    nothing bound: `MissingPrefix(A)`. -/
+example : nameRefChain c09QnEnv [c09El 3 [(0, 2)] []] 3 = .ok 0 := by rfl
+example : resolveQName [c09El 3 [(0, 2)] []] false 0 = some 2 := by decide
+example : nameRefChain c09QnEnv [c09El 3 [] []] 3 = .error (.missingPrefix 2) := by rfl
+
+/-- Other names at an element `b` under `xmlns="A"`: the no-namespace name `c` is NOT refused, and
+    the attribute name `{A}x` queried with the element as context gets the default prefix. -/
+example : nameRefChain c09QnEnv [c09El 1 [] [], c09El 3 [(0, 2)] []] 2 = .ok 0 := by rfl
+example : nameRefChain c09QnEnv [c09El 1 [] [], c09El 3 [(0, 2)] []] 0 = .ok 0 := by rfl
+example : fullName c09QnEnv (c09El 3 [(0, 2)] [c09El 1 [] []]) [1] 0 = some (.ok ['x']) := by rfl
+
+/-- `node_name_ref` on the attribute of `<a xmlns="A" xmlns:p="A" p:x=""/>`. -/
+example : nodeNameRef c09QnEnv (c09El 3 [(0, 2), (2, 2)] [c09Attr]) [2] = some (.ok (some (0, 2))) := by rfl
+
+/-- `namespace_prefix(…, A, non_empty)` on `<a xmlns="A" xmlns:p="A"/>`: `""` without, `p` with. -/
+example : namespacePrefix (c09El 3 [(0, 2), (2, 2)] []) [] 2 false = some (some 0) := by decide
+example : namespacePrefix (c09El 3 [(0, 2), (2, 2)] []) [] 2 true = some (some 2) := by decide
 
 end XotModel.Props
